@@ -431,7 +431,7 @@ func genDataURI(t *rapid.T) Case {
 
 func genMediatype(t *rapid.T) Case {
 	c := Case{Kind: "mediatype"}
-	pieces := []string{"text", "/", "HTML", "css", ";", " ", "  ", "\t", "charset", "=", "UTF-8", "\"UTF-8 x\"", "\"A;b = C\"", "\"\"", "*", "+xml", "Q", "x", "\n", "boundary=\"--X Y--\""}
+	pieces := []string{"text", "/", "HTML", "css", ";", " ", "  ", "\t", "charset", "=", "UTF-8", "\"UTF-8 x\"", "\"A;b = C\"", "\"\"", "*", "+xml", "Q", "x", "\n", "boundary=\"--X Y--\"", ",", ", ", "codecs=\"avc1.42E01E, MP4A.40.2\"", "\"a, B  c\"", "\"x,\"", "video/mp4"}
 	n := rapid.IntRange(0, 10).Draw(t, "n")
 	var sb strings.Builder
 	for i := 0; i < n; i++ {
